@@ -267,3 +267,302 @@ func VerifC06FanDAG()       { c05Mode = 6; c05Check(c05Fan(), true, 0, 5, []stri
 func VerifC06BranchPregel() { c05Mode = 6; c05Check(c05Branch(), false, 0, 5, []string{"a", "b", "d"}) }
 func VerifC06BranchDAG()    { c05Mode = 6; c05Check(c05Branch(), true, 0, 5, []string{"a", "b", "d"}) }
 func VerifC06Cycle()        { c05Mode = 6; c05CheckL(c05Cycle(), false, 8, 8, []string{"a", "b"}, 2) }
+
+// ---- Workflow (eager execution): two parallel lanes START->a->c, START->b->d, END <- c, d
+func c05Workflow() { c05WorkflowShape(0) }
+
+// shape 0: lanes START->a->c, START->b->d, END<-c,d ; shape 1: join START->a, START->b, c<-a,b, END<-c
+func c05WorkflowShape(shape int) {
+	ctx := context.Background()
+	vcfg("fifo", 1)
+	nodes := []string{"a", "b", "c", "d"}
+	succ := map[string]string{"a": "c", "b": "d"}
+	var before, after []string
+	g := &vG{nodes: nodes, edges: [][2]string{{START, "a"}, {START, "b"}, {"a", "c"}, {"b", "d"}, {"c", END}, {"d", END}}}
+	if shape == 1 {
+		nodes = []string{"a", "b", "c"}
+		g = &vG{nodes: nodes, edges: [][2]string{{START, "a"}, {START, "b"}, {"a", "c"}, {"b", "c"}, {"c", END}}}
+	}
+	mon := &c06Mon{g: g, before: map[string]bool{}, after: map[string]bool{}, allowed: map[string]int{}, pendingAft: map[string]bool{}}
+	desc := ""
+	for _, n := range nodes {
+		switch vchoose("int_"+n, 3) {
+		case 1:
+			before = append(before, n)
+			mon.before[n] = true
+			desc += "before:" + n + " "
+		case 2:
+			after = append(after, n)
+			mon.after[n] = true
+			desc += "after:" + n + " "
+		}
+	}
+	_ = succ
+	build := func(log *vLog, m *c06Mon) *Workflow[map[string]any, map[string]any] {
+		wf := NewWorkflow[map[string]any, map[string]any]()
+		mk := func(k string) *Lambda {
+			return InvokableLambda(func(ctx context.Context, in map[string]any) (map[string]any, error) {
+				if m != nil {
+					m.onStart(k)
+				}
+				x := vFoldDeep(in)
+				log.execs = append(log.execs, vExec{k, x})
+				if m != nil {
+					m.onEnd(k)
+				}
+				return map[string]any{k: vsymUF("f_"+k, x)}, nil
+			})
+		}
+		wf.AddLambdaNode("a", mk("a")).AddInput(START)
+		wf.AddLambdaNode("b", mk("b")).AddInput(START)
+		if shape == 1 {
+			wf.AddLambdaNode("c", mk("c")).AddInput("a", ToField("a")).AddInput("b", ToField("b"))
+			wf.End().AddInput("c")
+			return wf
+		}
+		wf.AddLambdaNode("c", mk("c")).AddInput("a")
+		wf.AddLambdaNode("d", mk("d")).AddInput("b")
+		wf.End().AddInput("c", ToField("c")).AddInput("d", ToField("d"))
+		return wf
+	}
+	logI, logU := &vLog{}, &vLog{}
+	store := &vStore{m: map[string][]byte{}}
+	ri, err := build(logI, mon).Compile(ctx, WithCheckPointStore(store), WithInterruptBeforeNodes(before), WithInterruptAfterNodes(after))
+	vassume(err == nil)
+	ru, err := build(logU, nil).Compile(ctx)
+	vassume(err == nil)
+	in := map[string]any{"in": vsymInt("x")}
+	wantOut, wantErr := ru.Invoke(ctx, in)
+	vassume(wantErr == nil)
+	var out map[string]any
+	finished := false
+	for call := 0; call < 6 && !finished; call++ {
+		setsBefore := store.sets
+		var rerr error
+		out, rerr = ri.Invoke(ctx, in, WithCheckPointID("cp"))
+		if rerr == nil {
+			finished = true
+			a6(store.sets == setsBefore, "no checkpoint is written when the call returns without an interrupt ("+desc+")")
+			break
+		}
+		info, ok := ExtractInterruptInfo(rerr)
+		a6(ok, "workflow: a run of interrupt-configured nodes fails only with an interrupt error ("+desc+")")
+		a5(ok, "workflow: the resumed run does not fail with a non-interrupt error ("+desc+")")
+		if !ok {
+			return
+		}
+		a6(store.sets == setsBefore+1, "workflow: a checkpoint is written exactly when an interrupt error is returned ("+desc+")")
+		for _, n := range info.BeforeNodes {
+			a6(mon.before[n], "workflow: reported before-node "+n+" is configured as interrupt-before")
+			mon.allowed[n]++
+		}
+		for _, n := range info.AfterNodes {
+			a6(mon.after[n] && mon.pendingAft[n], "workflow: reported after-node "+n+" is configured and has just completed")
+			delete(mon.pendingAft, n)
+		}
+		a6(len(mon.pendingAft) == 0, "workflow: every interrupt-after node that completed is reported by the interrupt ("+desc+")")
+	}
+	a6(mon.bad == "", "workflow: "+mon.bad+" ("+desc+")")
+	a5(finished, "workflow: the run completes after resuming ("+desc+")")
+	a5(c02DeepEq(out, wantOut), "workflow: interrupted and resumed run returns the output of the uninterrupted run ("+desc+")")
+	for _, n := range nodes {
+		a, b := logI.of(n), logU.of(n)
+		a5(len(a) == len(b), "workflow: node "+n+" is executed as often as in the uninterrupted run ("+desc+")")
+		for i := range a {
+			a5(a[i] == b[i], "workflow: node "+n+" sees the same input as in the uninterrupted run ("+desc+")")
+		}
+	}
+}
+
+func VerifC05Workflow() { c05Workflow() }
+func VerifC06Workflow() { c05Mode = 6; c05Workflow() }
+
+func VerifC05WorkflowJoin() { c05WorkflowShape(1) }
+func VerifC06WorkflowJoin() { c05Mode = 6; c05WorkflowShape(1) }
+
+// ---- nested graph with its own interrupt points, inside a cycle of the outer graph:
+//      outer: START -> pre -> sub -> (branch: pre | END) ; inner: START -> p -> x -> END
+func c05NestedLoop() {
+	ctx := context.Background()
+	vcfg("fifo", 1)
+	innerInt := vchoose("inner", 3) // 0 none, 1 before x, 2 after p
+	outerInt := vchoose("outer", 4) // 0 none, 1 before sub, 2 after sub, 3 after pre
+	desc := []string{"", "inner-before:x ", "inner-after:p "}[innerInt] + []string{"", "before:sub", "after:sub", "after:pre"}[outerInt]
+	loops := vrange("loops", 0, 2) // how often the branch goes back to pre
+	build := func(log *vLog, interrupts bool, store CheckPointStore) (Runnable[map[string]any, map[string]any], error) {
+		evals := 0
+		inner := NewGraph[map[string]any, map[string]any]()
+		_ = inner.AddLambdaNode("p", c05Node("p", log, nil))
+		_ = inner.AddLambdaNode("x", c05Node("x", log, nil))
+		_ = inner.AddEdge(START, "p")
+		_ = inner.AddEdge("p", "x")
+		_ = inner.AddEdge("x", END)
+		outer := NewGraph[map[string]any, map[string]any]()
+		_ = outer.AddLambdaNode("pre", c05Node("pre", log, nil))
+		var iopts []GraphCompileOption
+		if interrupts && innerInt == 1 {
+			iopts = append(iopts, WithInterruptBeforeNodes([]string{"x"}))
+		}
+		if interrupts && innerInt == 2 {
+			iopts = append(iopts, WithInterruptAfterNodes([]string{"p"}))
+		}
+		_ = outer.AddGraphNode("sub", inner, WithGraphCompileOptions(iopts...))
+		_ = outer.AddEdge(START, "pre")
+		_ = outer.AddEdge("pre", "sub")
+		_ = outer.AddBranch("sub", NewGraphBranch(func(ctx context.Context, in map[string]any) (string, error) {
+			evals++
+			if evals <= loops {
+				return "pre", nil
+			}
+			return END, nil
+		}, map[string]bool{"pre": true, END: true}))
+		opts := []GraphCompileOption{WithMaxRunSteps(20)}
+		if interrupts {
+			opts = append(opts, WithCheckPointStore(store))
+			switch outerInt {
+			case 1:
+				opts = append(opts, WithInterruptBeforeNodes([]string{"sub"}))
+			case 2:
+				opts = append(opts, WithInterruptAfterNodes([]string{"sub"}))
+			case 3:
+				opts = append(opts, WithInterruptAfterNodes([]string{"pre"}))
+			}
+		}
+		return outer.Compile(ctx, opts...)
+	}
+	logI, logU := &vLog{}, &vLog{}
+	store := &vStore{m: map[string][]byte{}}
+	ri, err := build(logI, true, store)
+	vassert(err == nil, "graph with nested interrupt points compiles")
+	ru, err := build(logU, false, nil)
+	vassert(err == nil, "twin compiles")
+	in := map[string]any{"in": vsymInt("x")}
+	wantOut, wantErr := ru.Invoke(ctx, in)
+	vassert(wantErr == nil, "uninterrupted run succeeds")
+	var out map[string]any
+	finished := false
+	for call := 0; call < 12 && !finished; call++ {
+		setsBefore := store.sets
+		var rerr error
+		out, rerr = ri.Invoke(ctx, in, WithCheckPointID("cp"))
+		if rerr == nil {
+			finished = true
+			break
+		}
+		info, ok := ExtractInterruptInfo(rerr)
+		a5(ok, "nested: the resumed run does not fail with a non-interrupt error ("+desc+")")
+		a6(ok, "nested: a run with nested interrupt points fails only with an interrupt error ("+desc+")")
+		if !ok {
+			return
+		}
+		a6(store.sets == setsBefore+1, "nested: a checkpoint is written by the top-level run exactly when an interrupt error is returned ("+desc+")")
+		if len(info.SubGraphs) > 0 {
+			si := info.SubGraphs["sub"]
+			a6(si != nil && (len(si.BeforeNodes)+len(si.AfterNodes) > 0), "nested: the interrupt carries the nested graph's interrupt info ("+desc+")")
+			if si != nil && innerInt == 1 {
+				a6(c05Contains(si.BeforeNodes, "x"), "nested: inner interrupt-before node is reported in the nested info")
+			}
+			if si != nil && innerInt == 2 {
+				a6(c05Contains(si.AfterNodes, "p"), "nested: inner interrupt-after node is reported in the nested info")
+			}
+		}
+	}
+	a5(finished, "nested: the run completes after resuming ("+desc+")")
+	a5(vMapEq(out, wantOut), "nested: interrupted and resumed run returns the output of the uninterrupted run ("+desc+")")
+	for _, n := range []string{"pre", "p", "x"} {
+		a, b := logI.of(n), logU.of(n)
+		a5(len(a) == len(b), "nested: node "+n+" is executed as often as in the uninterrupted run; a later execution of the nested graph starts fresh ("+desc+")")
+		for i := range a {
+			if i < len(b) {
+				a5(a[i] == b[i], "nested: node "+n+" sees the same input as in the uninterrupted run ("+desc+")")
+			}
+		}
+	}
+}
+
+func VerifC05NestedLoop() { c05NestedLoop() }
+func VerifC06NestedLoop() { c05Mode = 6; c05NestedLoop() }
+
+// ---- two nested graphs running in parallel inside a Workflow, each with an interrupt-after point
+func c05ParallelNested() {
+	ctx := context.Background()
+	vcfg("fifo", 1)
+	i1 := vchoose("s1", 2) == 1
+	i2 := vchoose("s2", 2) == 1
+	build := func(log *vLog, interrupts bool, store CheckPointStore) (Runnable[map[string]any, map[string]any], error) {
+		mkInner := func(tag string, intr bool) (AnyGraph, []GraphAddNodeOpt) {
+			inner := NewGraph[map[string]any, map[string]any]()
+			_ = inner.AddLambdaNode("a", c05Node(tag+"a", log, nil))
+			_ = inner.AddLambdaNode("b", c05Node(tag+"b", log, nil))
+			_ = inner.AddEdge(START, "a")
+			_ = inner.AddEdge("a", "b")
+			_ = inner.AddEdge("b", END)
+			var o []GraphAddNodeOpt
+			if interrupts && intr {
+				o = append(o, WithGraphCompileOptions(WithInterruptAfterNodes([]string{"a"})))
+			}
+			return inner, o
+		}
+		wf := NewWorkflow[map[string]any, map[string]any]()
+		g1, o1 := mkInner("1", i1)
+		g2, o2 := mkInner("2", i2)
+		wf.AddGraphNode("S1", g1, o1...).AddInput(START)
+		wf.AddGraphNode("S2", g2, o2...).AddInput(START)
+		wf.AddLambdaNode("c", InvokableLambda(func(ctx context.Context, in map[string]any) (map[string]any, error) {
+			x := vFoldDeep(in)
+			log.execs = append(log.execs, vExec{"c", x})
+			return map[string]any{"c": vsymUF("f_c", x)}, nil
+		})).AddInput("S1", ToField("s1")).AddInput("S2", ToField("s2"))
+		wf.End().AddInput("c")
+		var opts []GraphCompileOption
+		if interrupts {
+			opts = append(opts, WithCheckPointStore(store))
+		}
+		return wf.Compile(ctx, opts...)
+	}
+	logI, logU := &vLog{}, &vLog{}
+	store := &vStore{m: map[string][]byte{}}
+	ri, err := build(logI, true, store)
+	vassert(err == nil, "workflow with nested graphs compiles")
+	ru, err := build(logU, false, nil)
+	vassert(err == nil, "twin compiles")
+	in := map[string]any{"in": vsymInt("x")}
+	wantOut, wantErr := ru.Invoke(ctx, in)
+	vassert(wantErr == nil, "uninterrupted run succeeds")
+	var out map[string]any
+	finished := false
+	reported := map[string]bool{}
+	for call := 0; call < 6 && !finished; call++ {
+		var rerr error
+		out, rerr = ri.Invoke(ctx, in, WithCheckPointID("cp"))
+		if rerr == nil {
+			finished = true
+			break
+		}
+		info, ok := ExtractInterruptInfo(rerr)
+		a5(ok, "parallel nested: the resumed run does not fail with a non-interrupt error")
+		a6(ok, "parallel nested: only interrupt errors")
+		if !ok {
+			return
+		}
+		for k, si := range info.SubGraphs {
+			a6(si != nil && c05Contains(si.AfterNodes, "a"), "parallel nested: nested info of "+k+" names its interrupt-after node")
+			reported[k] = true
+		}
+	}
+	a6(reported["S1"] == i1 && reported["S2"] == i2, "parallel nested: every nested graph that interrupted is reported in SubGraphs")
+	a5(finished, "parallel nested: the run completes after resuming")
+	a5(c02DeepEq(out, wantOut), "parallel nested: same output as the uninterrupted run")
+	for _, n := range []string{"1a", "1b", "2a", "2b", "c"} {
+		a, b := logI.of(n), logU.of(n)
+		a5(len(a) == len(b), "parallel nested: node "+n+" is executed as often as in the uninterrupted run")
+		for i := range a {
+			if i < len(b) {
+				a5(a[i] == b[i], "parallel nested: node "+n+" sees the same input as in the uninterrupted run")
+			}
+		}
+	}
+}
+
+func VerifC05ParallelNested() { c05ParallelNested() }
+func VerifC06ParallelNested() { c05Mode = 6; c05ParallelNested() }
